@@ -19,8 +19,11 @@ def run(ctx):
     except OSError:
         pass
     first = p.stdout.splitlines()[0] if p.stdout else ""
-    if p.returncode != 0 or not first.startswith("CLOCKS 0 ") or len(first.split()) != 3 or first.split()[2] == "0":
-        viol.append({"sig": "c-abi-read-order", "detail": "clockbound_now() read the clocks as '%s' (expected CLOCK_REALTIME (0) then a monotonic clock)" % first, "replay": ""})
+    ids = first.split()[1:] if first.startswith("CLOCKS") else []
+    last_real = max([i for i, c in enumerate(ids) if c == "0"] or [-1])
+    last_mono = max([i for i, c in enumerate(ids) if c != "0"] or [-1])
+    if p.returncode != 0 or last_real < 0 or last_mono < last_real:
+        viol.append({"sig": "c-abi-read-order", "detail": "clockbound_now() read the clocks as '%s' (a monotonic clock must be read after CLOCK_REALTIME (0))" % first, "replay": ""})
     inconclusive = incon
     if agg["shards_lost"]:
         inconclusive = "%d shards did not finish" % agg["shards_lost"]
